@@ -1,121 +1,139 @@
 /-
 C08 — carving completes; each carved record is backed by bytes at its reported offset.
 
-Property theorems only (helper lemmas and proofs live in Proofs/Carve.lean).
-`Model.Carve` mirrors sqlite_dissect/carving/carver.py (`carveUnallocated`, `carveFreeblocks`),
-carved_cell.py (`carvedRecord`, `tryCarve`), rollback_journal_carver.py (`carveJournal`) and the
-carving part of version_history.py (`carveStep`, `carveHistory`) and interface.carve_table
-(`carveTable`).  A result `.error e` is a Python exception of class `e` that escapes the carver;
-`tryCarve` is the `try … except (CellCarvingError, ValueError)` around one candidate.
+Property theorems only (helper lemmas and proofs live in Proofs/Carve.lean and
+Proofs/CarveCompletes.lean).  `Model.Carve` mirrors sqlite_dissect/carving/carver.py
+(`carveUnallocated`, `carveFreeblocks`), carved_cell.py (`carvedRecord`, `tryCarve`),
+rollback_journal_carver.py (`carveJournal`), the carving part of version_history.py (`carveStep`,
+`carveHistory`) and interface.carve_table (`carveTable`), after the `fix:` commits 6eca1fa, 0b2b453,
+1323ad4, 4d9b308, 1c3b10a, 0d6a473, 56bb962.  A result `.error e` is a Python exception of class
+`e` that escapes the carver; `tryCarve` is the `try … except (CellCarvingError, ValueError)` around
+one candidate.  `.error .outsideModel` is not a Python exception: a content size (a float in the
+code) left the range in which the model follows it exactly (2^53).
 -/
 import SqliteDissect.Proofs.Carve
+import SqliteDissect.Proofs.CarveCompletes
 
 namespace SqliteDissect.Properties.C08
 open SqliteDissect SqliteDissect.Model SqliteDissect.Model.Carve
 open SqliteDissect.Proofs.Carve
 
-/-! ### completes
+/-! ### completes -/
 
-Full statement: for every signature the carver can build its two patterns from and every byte
-string, carving the string as an unallocated region and as the content of a freeblock returns.
-It is false of the code: five different exceptions escape. -/
+/-- Carving an unallocated region — a page's unallocated area, a freelist page, a journal page
+image — returns, for every signature the carver can build its patterns from and every byte string. -/
+theorem completes_unallocated (sig : CarveSig) (h : Proofs.CarveCompletes.SigOk sig) (ps pn po rs : Nat) (data : Buf)
+    (hwf : data.WF) (hsize : data.size < 2 ^ 53) :
+    (∃ cells, carveUnallocated sig ps pn po rs data = .ok cells) ∨
+      carveUnallocated sig ps pn po rs data = .error .outsideModel := by
+  exact Proofs.CarveCompletes.completes_unallocated sig h ps pn po rs data hwf hsize
 
+/-- Carving the freeblocks of a page returns for every table with at least two columns. -/
+theorem completes_freeblocks (sig : CarveSig) (h : Proofs.CarveCompletes.SigOk sig) (hcols : 2 ≤ sig.numberOfColumns)
+    (ps : Nat) (fbs : List FbIn) (hwf : ∀ fb ∈ fbs, fb.content.WF) (hsize : ∀ fb ∈ fbs, fb.content.size < 2 ^ 53) :
+    (∃ cells, carveFreeblocks sig ps fbs = .ok cells) ∨ carveFreeblocks sig ps fbs = .error .outsideModel := by
+  exact Proofs.CarveCompletes.completes_freeblocks sig h hcols ps fbs hwf hsize
+
+/-- non-vacuity: a signature satisfying `SigOk` (and the witness that `hcols` is needed) -/
+theorem sigOk_nonvacuous :
+    Proofs.CarveCompletes.SigOk Proofs.CarveRecall.sig12 ∧
+      carveFreeblocks Proofs.CarveRecall.sig12 1024 [⟨2, 0, 200, 204, 5, Buf.ofList [0x81], 1024⟩] = .error .typeError := by
+  exact Proofs.CarveCompletes.single_column_typeError_witness
+
+/-- Single-column tables (open finding C08-07): the only Python exception class that can still leave
+`carve_freeblocks` is TypeError — `ord(b'')` in `decode_varint(data, start - 1)` for the empty partial
+match at the very end of a freeblock whose last byte has its high bit set. -/
+theorem freeblocks_single_column_escape (sig : CarveSig) (h : Proofs.CarveCompletes.SigOk sig) (ps : Nat)
+    (fbs : List FbIn) (hwf : ∀ fb ∈ fbs, fb.content.WF) (hsize : ∀ fb ∈ fbs, fb.content.size < 2 ^ 53)
+    (e : PyErr) (he : carveFreeblocks sig ps fbs = .error e) : e = .outsideModel ∨ e = .typeError := by
+  exact Proofs.CarveCompletes.freeblocks_single_column_escape sig h ps fbs hwf hsize e he
+
+/-- Hence the unrestricted statement (every signature, every byte string, unallocated region and
+freeblock) is still false of the code … -/
 def FullStatement : Prop := CompletesFull
 
 theorem completes_counterexample : ¬ FullStatement := by
   exact Proofs.Carve.completes_counterexample
 
-/-- `int >= None`: a full match at offset 0 followed by another full match -/
-theorem escapes_int_ge_none :
-    carveUnallocated sig11 1024 2 1024 100 dataNone false = .error .typeError := by
-  exact Proofs.Carve.witness_none_compare
-
-/-- `"" += bytes`: a reconstructed first column whose body is cut by the end of the region -/
-theorem escapes_str_plus_bytes :
-    carveFreeblocks sig41 1024 [⟨2, 0, 200, 6, Buf.ofList [1, 5], false, 1024⟩] = .error .typeError := by
-  exact Proofs.Carve.witness_str_plus_bytes
-
-/-- `bytearray.encode`: an empty region (a `bytearray()`) and a single-column table -/
-theorem escapes_bytearray_encode :
-    carveUnallocated sig0 1024 2 1024 100 Buf.empty true = .error .attributeError := by
-  exact Proofs.Carve.witness_bytearray
-
-/-- unpacking the exception object `decode_varint_in_reverse` returns -/
-theorem escapes_error_object :
-    carveFreeblocks sigB0 4096 [⟨2, 0, 12, 13, Buf.ofList [255, 255, 255, 255, 255, 255, 255, 5, 0], false, 4096⟩]
-      = .error .typeError := by
-  exact Proofs.Carve.witness_error_object
-
-/-- `ord(b'')`: `decode_varint` runs off the end of a freeblock of a single-column table -/
+/-- … by this input: single NULL column, freeblock content `02 c0`. -/
 theorem escapes_ord_empty :
-    carveFreeblocks sig0 65536 [⟨2, 0, 8, 6, Buf.ofList [2, 0xc0], false, 65536⟩] = .error .typeError := by
+    carveFreeblocks sig0 65536 [⟨2, 0, 8, 12, 6, Buf.ofList [2, 0xc0], 65536⟩] = .error .typeError := by
   exact Proofs.Carve.witness_ord_empty
 
-/-- The exact condition of the `int >= None` defect: with no full match, exactly one, or a first
-match that does not start at offset 0, every not-yet-carved interval has a lower bound … -/
-theorem intervals_bounded (len : Nat) (ms : List (Nat × Nat))
-    (h : ms.length ≤ 1 ∨ ∃ s e rest, ms = (s, e) :: rest ∧ s ≠ 0) :
+/-- The minimal inputs of the four repaired escapes now carve: a full match at offset 0 followed by
+another (`int >= None`, 6eca1fa) … -/
+theorem fixed_int_ge_none :
+    ∃ cells, carveUnallocated sig11 1024 2 1024 100 dataNone = .ok cells ∧ cells.length = 2 := by
+  exact Proofs.Carve.fixed_none_compare
+
+/-- … a reconstructed first column cut by the end of the region (`"" += bytes`, 0b2b453) … -/
+theorem fixed_str_plus_bytes :
+    ∃ cells, carveFreeblocks sig41 1024 [⟨2, 0, 200, 204, 6, Buf.ofList [1, 5], 1024⟩] = .ok cells ∧ cells.length = 1 := by
+  exact Proofs.Carve.fixed_str_plus_bytes
+
+/-- … an empty region (`bytearray.encode`, 4d9b308) … -/
+theorem fixed_bytearray_encode :
+    ∃ cells, carveUnallocated sig0 1024 2 1024 100 Buf.empty = .ok cells ∧ cells.length = 1 := by
+  exact Proofs.Carve.fixed_bytearray
+
+/-- … six high-bit bytes in front of a partial match (returned exception object, 1c3b10a). -/
+theorem fixed_error_object :
+    ∃ cells, carveFreeblocks sigB0 4096 [⟨2, 0, 12, 16, 13, Buf.ofList [255, 255, 255, 255, 255, 255, 255, 5, 0], 4096⟩]
+      = .ok cells ∧ cells.length = 1 := by
+  exact Proofs.Carve.fixed_error_object
+
+/-- The not-yet-carved intervals always have a lower bound (`last_offset` is assigned before use). -/
+theorem intervals_bounded (len : Nat) (ms : List (Nat × Nat)) :
     ∀ iv ∈ uncarved len ms, iv.1.isSome = true := by
-  exact Proofs.Carve.uncarved_bounded len ms h
+  exact Proofs.Carve.uncarved_bounded len ms
 
-example : ∀ iv ∈ uncarved 9 [(2, 4), (6, 8)], iv.1.isSome = true :=
-  intervals_bounded 9 _ (Or.inr ⟨2, 4, [(6, 8)], rfl, by decide⟩)
-
-/-- … and with at least two matches of which the first starts at offset 0, one has none. -/
-theorem intervals_unbounded (len : Nat) (e s2 e2 : Nat) (rest : List (Nat × Nat)) :
-    ∃ iv ∈ uncarved len ((0, e) :: (s2, e2) :: rest), iv.1 = none := by
-  exact Proofs.Carve.uncarved_unbounded len e s2 e2 rest
-
-/-- What the per-candidate handler lets through is never a `ValueError` (nor a `CellCarvingError`,
-which has no class of its own outside `tryCarve`). -/
+/-- What the per-candidate handler lets through is never a `ValueError`. -/
 theorem candidate_absorbs (fo pn ix : Nat) (i : RecIn) (e : PyErr) (h : tryCarve fo pn ix i = .error e) :
     e ≠ .valueError := by
   exact Proofs.Carve.tryCarve_absorbs fo pn ix i e h
 
-/-- PARTIAL: carving an unallocated region completes when (1) the candidate constructor absorbs
-its exceptions on every full match and every partial match of the region — the hypothesis that the
-four constructor defects above do not strike — and (2) the full matches leave no unbounded interval
-(the `int >= None` defect does not strike). -/
-theorem completes_partial (sig : CarveSig) (fc : List Int) (simplified : List (List Int)) (pf pp : Regex.Pat)
-    (hc : chosenSignature sig = .ok (fc, simplified))
-    (hpf : Regex.genSignature simplified false = .ok pf) (hpp : Regex.genSignature simplified true = .ok pp)
-    (ps pn po rs : Nat) (data : Buf) (ba : Bool)
-    (hfull : NoEscapeOn (mkFull sig ps pn po rs data ba) (Regex.finditer pf data.toList))
-    (hpart : NoEscapeOn (mkPartial sig fc ps pn po rs data ba) (Regex.finditer pp data.toList))
-    (hms : (Regex.finditer pf data.toList).length ≤ 1 ∨
-      ∃ s e rest, Regex.finditer pf data.toList = (s, e) :: rest ∧ s ≠ 0) :
-    ∃ cells, carveUnallocated sig ps pn po rs data ba = .ok cells := by
-  exact Proofs.Carve.completes_partial_on sig fc simplified pf pp hc hpf hpp ps pn po rs data ba hfull hpart hms
+/-- The journal carver never reads past the end of the journal, whatever its size (0d6a473) … -/
+theorem journal_never_eof (sig : CarveSig) (ps : Nat) (fh : FileH) (e : PyErr)
+    (h : carveJournal sig ps fh = .error e) : e ≠ .eofError := by
+  exact Proofs.Carve.journal_never_eof sig ps fh e h
 
-/-- non-vacuity of `completes_partial` -/
-theorem completes_partial_nonvacuous :
-    ∃ (fc : List Int) (simplified : List (List Int)) (pf pp : Regex.Pat),
-      chosenSignature sig11 = .ok (fc, simplified) ∧ Regex.genSignature simplified false = .ok pf ∧
-      Regex.genSignature simplified true = .ok pp ∧
-      NoEscapeOn (mkFull sig11 1024 2 1024 100 (Buf.ofList [0, 1, 1, 5, 6]) false) (Regex.finditer pf [0, 1, 1, 5, 6]) ∧
-      NoEscapeOn (mkPartial sig11 fc 1024 2 1024 100 (Buf.ofList [0, 1, 1, 5, 6]) false) (Regex.finditer pp [0, 1, 1, 5, 6]) ∧
-      (Regex.finditer pf [0, 1, 1, 5, 6]).length ≤ 1 := by
-  exact Proofs.Carve.completes_partial_on_nonvacuous
+/-- … and a journal without a whole page record yields nothing. -/
+theorem journal_header_only (sig : CarveSig) (ps : Nat) (fh : FileH) (h : fh.size < 512 + (4 + ps + 4)) :
+    carveJournal sig ps fh = .ok [] := by
+  exact Proofs.Carve.journal_header_only sig ps fh h
 
 /-! ### backed -/
 
-/-- Unallocated regions (also freelist pages and journal page images): the reported file offset is
-page offset + region start + match start, the cell says where it came from. -/
-theorem backed_offset (sig : CarveSig) (ps pn po rs : Nat) (data : Buf) (ba : Bool)
-    (cells : List CarvedCell) (h : carveUnallocated sig ps pn po rs data ba = .ok cells) :
+/-- Unallocated regions: the reported file offset is page offset + region start + match start. -/
+theorem backed_offset (sig : CarveSig) (ps pn po rs : Nat) (data : Buf)
+    (cells : List CarvedCell) (h : carveUnallocated sig ps pn po rs data = .ok cells) :
     ∀ c ∈ cells, c.fileOffset = po + rs + c.matchStart ∧ c.loc = .unallocated ∧ c.pageNumber = pn := by
-  exact Proofs.Carve.unallocated_offsets sig ps pn po rs data ba cells h
+  exact Proofs.Carve.unallocated_offsets sig ps pn po rs data cells h
+
+/-- Freeblocks (full statement, true since 1323ad4): the reported offset is where the matched bytes
+are in the file — page offset + freeblock start + 4 + match start. -/
+theorem backed_offset_freeblock (sig : CarveSig) (ps : Nat) (fb : FbIn) (cells : List CarvedCell)
+    (hcs : fb.contentStart = fb.start + 4) (h : carveFreeblocks sig ps [fb] = .ok cells) :
+    ∀ c ∈ cells, c.fileOffset = fb.pageOffset + (fb.start + 4) + c.matchStart := by
+  exact Proofs.Carve.freeblock_offset_full sig ps fb cells hcs h
 
 /-- The matched bytes `[matchStart, matchEnd)` of the region are the serial-type varints of the
 reported columns (all, or all but a reconstructed first one), and every column not flagged
 truncated holds the value `get_record_content` decodes from exactly its body bytes, the bodies
 following the matched bytes back to back. -/
-theorem backed_bytes (sig : CarveSig) (ps pn po rs : Nat) (data : Buf) (ba : Bool)
-    (cells : List CarvedCell) (h : carveUnallocated sig ps pn po rs data ba = .ok cells) :
+theorem backed_bytes (sig : CarveSig) (ps pn po rs : Nat) (data : Buf)
+    (cells : List CarvedCell) (h : carveUnallocated sig ps pn po rs data = .ok cells) :
     ∀ c ∈ cells, c.matchStart ≤ c.matchEnd ∧
       (∃ k, k ≤ 1 ∧ HeaderAt data c.matchEnd c.matchStart (c.rec_.cols.drop k)) ∧
       BodiesAt data c.matchEnd c.rec_.cols := by
-  exact Proofs.Carve.unallocated_backed sig ps pn po rs data ba cells h
+  exact Proofs.Carve.unallocated_backed sig ps pn po rs data cells h
+
+theorem backed_bytes_freeblock (sig : CarveSig) (ps : Nat) (fb : FbIn) (cells : List CarvedCell)
+    (h : carveFreeblocks sig ps [fb] = .ok cells) :
+    ∀ c ∈ cells, c.matchStart ≤ c.matchEnd ∧
+      (∃ k, k ≤ 1 ∧ HeaderAt fb.content c.matchEnd c.matchStart (c.rec_.cols.drop k)) ∧
+      BodiesAt fb.content c.matchEnd c.rec_.cols := by
+  exact Proofs.Carve.freeblock_backed sig ps fb cells h
 
 /-- The same for one constructed record, whatever the location. -/
 theorem backed_record (i : RecIn) (r : CarvedRec) (h : carvedRecord i = .ok r) (hse : i.s ≤ i.e) :
@@ -123,22 +141,7 @@ theorem backed_record (i : RecIn) (r : CarvedRec) (h : carvedRecord i = .ok r) (
     r.bodyStart = i.e ∧ BodiesAt i.data i.e r.cols ∧ r.cols.length = i.nCols := by
   exact Proofs.Carve.record_backed i r h hse
 
-/-- Freeblocks: full statement — the reported offset is where the matched bytes are in the file
-(page offset + content start + match start).  False: the code adds the freeblock's START although
-match offsets are relative to its CONTENT, four bytes further. -/
-def FreeblockFullStatement : Prop := FreeblockOffsetFull
-
-theorem freeblock_offset_counterexample : ¬ FreeblockFullStatement := by
-  exact Proofs.Carve.freeblock_offset_counterexample
-
-/-- what holds instead -/
-theorem freeblock_offset_partial (sig : CarveSig) (ps : Nat) (fb : FbIn) (cells : List CarvedCell)
-    (h : carveFreeblocks sig ps [fb] = .ok cells) :
-    ∀ c ∈ cells, c.fileOffset = fb.pageOffset + fb.start + c.matchStart ∧ c.loc = .freeblock := by
-  exact Proofs.Carve.freeblock_offsets sig ps fb cells h
-
-/-! ### no re-report (at the level of the digest the code de-duplicates by; `_partial` of the
-statement refuted at the end of this file) -/
+/-! ### no re-report -/
 
 /-- One step of the iterator reports only digests it has not reported before, and remembers them. -/
 theorem no_rereport_step (frames : Nat) (sig : CarveSig) (fl first : Bool) (st : CarveState) (ver : Version)
@@ -154,16 +157,28 @@ theorem no_rereport (frames : Nat) (sig : CarveSig) (fl : Bool) (vs : List (Vers
     (commits.flatMap fun cc => keys cc.carved).Nodup := by
   exact Proofs.Carve.no_rereport frames sig fl vs id commits h
 
-/-! ### … but the digest is not the record
+/-- What a digest identifies (since 56bb962): exactly the bytes of the region from the first matched
+serial type to the end of the bodies, as far as the region reaches — the residue itself, not its
+surroundings and not the offsets of the region it was found in.  So the same residue gets the same
+digest in whatever region (freeblock, later unallocated area, another page copy) it is seen, and
+`no_rereport` means: no residue is reported twice.  (Two residues with identical bytes at different
+places are, by the same token, one digest: see C09.) -/
+theorem digest_is_record_bytes (sig : CarveSig) (ps pn po rs : Nat) (data : Buf) (cells : List CarvedCell)
+    (h : carveUnallocated sig ps pn po rs data = .ok cells) :
+    ∀ c ∈ cells, c.digest = (data.slice c.matchStart c.rec_.cellEnd).toList := by
+  exact Proofs.Carve.unallocated_digest sig ps pn po rs data cells h
 
-Full statement of "a record carved in one version is not reported again": the digest identifies the
-record, i.e. the same values carved from the same place of a page — once out of a freeblock, once,
-after the page was rewritten, out of the unallocated area — get the same digest.  False: the digest
-is `md5(data[cell_start:cell_end])` over region-relative, guessed offsets. -/
+theorem digest_is_record_bytes_freeblock (sig : CarveSig) (ps : Nat) (fb : FbIn) (cells : List CarvedCell)
+    (h : carveFreeblocks sig ps [fb] = .ok cells) :
+    ∀ c ∈ cells, c.digest = (fb.content.slice c.matchStart c.rec_.cellEnd).toList := by
+  exact Proofs.Carve.freeblock_digest sig ps fb cells h
 
-def RereportFullStatement : Prop := DigestIdentifiesRecord
-
-theorem rereport_counterexample : ¬ RereportFullStatement := by
-  exact Proofs.Carve.rereport_counterexample
+/-- The witness of the former re-report defect: the same residue seen once as a freeblock and once,
+in a later version, inside the unallocated area gets one digest (and one file offset). -/
+theorem rereport_witness_fixed :
+    ∃ a b, carveFreeblocks sig41 1024 [fbWitness] = .ok [a] ∧
+      carveUnallocated sig41 1024 2 1024 200 regionLater = .ok [b] ∧
+      a.fileOffset = b.fileOffset ∧ a.digest = b.digest ∧ a.digest = [1, 0, 0, 0, 7, 9] := by
+  exact Proofs.Carve.rereport_witness_fixed
 
 end SqliteDissect.Properties.C08
